@@ -48,6 +48,8 @@ def plan(tier, seed):
                  ntok_light=0),
             dict(fam="relayout", space="k3", mode="comments", ntok=1,
                  ntok_light=2, win=(seed, 8)),
+            dict(fam="relayout", space="k2", mode="comments-prio", ntok=2,
+                 ntok_light=0),
             dict(fam="equiv", space="k3", nmax=4, win=(seed, 3)),
             dict(fam="equiv", space="k3", nmax=3, win=(seed, 24), wsset=1),
             dict(fam="equiv", space="k3", nmax=3, win=(seed, 24), wsset=2),
@@ -58,6 +60,8 @@ def plan(tier, seed):
         dict(fam="relayout", space="k4only", mode="ws", ntok=2, ntok_light=3,
              win=(0, 4)),
         dict(fam="relayout", space="k3", mode="comments", ntok=2, ntok_light=3),
+        dict(fam="relayout", space="k3", mode="comments-prio", ntok=2,
+             ntok_light=0, win=(0, 4)),
         dict(fam="equiv", space="k3", nmax=4),
         dict(fam="equiv", space="k4only", nmax=4, win=(0, 4)),
         dict(fam="equiv", space="k3", nmax=4, wsset=1),
@@ -145,6 +149,15 @@ def relayout_unit(u):
         text = spaces.render_grammar(prods, nts, "M0")
         if u["mode"] == "comments":
             text = add_layout(text, LAYOUT_CM, LAYOUT_CM_T)
+        elif u["mode"] == "comments-prio":
+            # the same layout with different priorities on its terminals
+            # (as one needs them to tell '///' doc comments from '//'): the
+            # layout sub-parser's scanner has to go through its priority
+            # levels with the end-of-layout pseudo token on offer
+            text = add_layout(text, LAYOUT_CM, LAYOUT_CM_T.replace(
+                "LineComment: /\\/\\/.*/;", "LineComment: /\\/\\/.*/ {15};"
+            ).replace("WS: /\\s+/;", "WS: /\\s+/ {5};"))
+            assert "{15}" in text and "{5}" in text
         parsers = []
         for tk in ("LALR", "SLR"):
             try:
